@@ -42,3 +42,47 @@ func donors(prop string, lists ...[]*explore.Scenario) []*explore.Scenario {
 func kv(k, v string) *goatorepo.KeyValue { return &goatorepo.KeyValue{Key: k, Value: v} }
 
 func unmarshal(b []byte, m proto.Message) error { return proto.Unmarshal(b, m) }
+
+// withHistory wraps scenarios so that they run on a connection that has already carried a
+// short history (env.Preamble) instead of on a fresh one; oracle keys and property stay those
+// of the wrapped scenario.
+func withHistory(pres []string, scs ...*explore.Scenario) []*explore.Scenario {
+	var out []*explore.Scenario
+	for _, sc := range scs {
+		for _, pre := range pres {
+			c := *sc
+			base := sc.Run
+			c.Name = sc.Name + "/after=" + pre
+			c.Run = func() {
+				env.Preamble = pre
+				defer func() { env.Preamble = "" }()
+				base()
+			}
+			out = append(out, &c)
+		}
+	}
+	return out
+}
+
+// pickScenarios selects the scenarios whose name contains one of the given substrings.
+func pickScenarios(l []*explore.Scenario, names ...string) []*explore.Scenario {
+	var out []*explore.Scenario
+	for _, sc := range l {
+		for _, n := range names {
+			if containsStr(sc.Name, n) {
+				out = append(out, sc)
+				break
+			}
+		}
+	}
+	return out
+}
+
+// historyKinds: the histories a tier prepends (quick: the combined one and the two that leave
+// the most state behind; thorough: every kind).
+func historyKinds(tier string) []string {
+	if tier == "thorough" {
+		return env.PreambleKinds
+	}
+	return []string{"mixed", "stream-cancel", "write-fail"}
+}
